@@ -611,7 +611,19 @@ func c12Helpers(r *eng.Run) {
 		f.Header.Masked, f.Header.Mask = true, drawMask(r)
 	}
 	r.Res.Nontrivial = true
-	variant := r.T.Int(sim.LCfg, 3)
+	variant := r.T.Int(sim.LCfg, 4)
+	// The buffer handed to the ...Buffer / ...To forms: a bytes.Buffer, or the
+	// application's own type that offers Write (and Bytes) and nothing else.
+	plain := r.T.Bool(sim.LCfg)
+	newBuf := func() wsflate.Buffer {
+		if plain {
+			return &plainBuf{}
+		}
+		return &bytes.Buffer{}
+	}
+	if plain && (variant == 1 || variant == 3) {
+		r.Probe("helper_destination_is_a_plain_writer")
+	}
 	r.Note("C12 helper variant=%d frame %+v (%d bytes)", variant, f.Header, len(msg))
 	if !r.T.Chance(sim.LFault, 7, 8) {
 		// Non-final frames are refused.
@@ -644,8 +656,14 @@ func c12Helpers(r *eng.Run) {
 	case 0:
 		cf, err = wsflate.CompressFrame(f)
 	case 1:
-		var buf bytes.Buffer
-		cf, err = wsflate.CompressFrameBuffer(&buf, f)
+		cf, err = wsflate.CompressFrameBuffer(newBuf(), f)
+	case 3:
+		buf := newBuf()
+		err = wsflate.DefaultHelper.CompressTo(buf, msg)
+		cf = f
+		cf.Payload = buf.Bytes()
+		cf.Header.Length = int64(len(cf.Payload))
+		cf.Header.Rsv |= 4
 	default:
 		var p []byte
 		p, err = wsflate.DefaultHelper.Compress(msg)
@@ -709,8 +727,13 @@ func c12Helpers(r *eng.Run) {
 	case 0:
 		df, err = wsflate.DecompressFrame(in)
 	case 1:
-		var buf bytes.Buffer
-		df, err = wsflate.DecompressFrameBuffer(&buf, in)
+		df, err = wsflate.DecompressFrameBuffer(newBuf(), in)
+	case 3:
+		buf := newBuf()
+		err = wsflate.DefaultHelper.DecompressTo(buf, in.Payload)
+		df = f
+		df.Payload = buf.Bytes()
+		df.Header.Length = int64(len(df.Payload))
 	default:
 		var p []byte
 		p, err = wsflate.DefaultHelper.Decompress(in.Payload)
@@ -799,6 +822,12 @@ func c12Helpers(r *eng.Run) {
 		}
 	}
 }
+
+// plainBuf is an application's buffer type: Write and Bytes, nothing else.
+type plainBuf struct{ b []byte }
+
+func (p *plainBuf) Write(b []byte) (int, error) { p.b = append(p.b, b...); return len(b), nil }
+func (p *plainBuf) Bytes() []byte               { return p.b }
 
 // trailerCompressor compresses correctly; its Close ends the stream and then
 // appends four more bytes (a checksum), or fails.
